@@ -771,6 +771,9 @@ func (ds *AnySource) writeControlStart(config *WriteControlConfig) error {
 			filename := fmt.Sprintf(filenamePattern, dsp.Name, "ljh3")
 			dsp.DataPublisher.SetLJH3(i, timebase, nrows, ncols, ds.subframeDivisions,
 				ds.subframeOffsets[i], filename)
+			// SetLJH3 has no row/column arguments: complete the channel's TDM identity in the header here.
+			dsp.DataPublisher.LJH3.Row = rowNum
+			dsp.DataPublisher.LJH3.Column = colNum
 		}
 	}
 	return ds.writingState.Start(filenamePattern, path, config)
